@@ -250,6 +250,9 @@ inductive Decl where
   | arrE (rows : List (List E))
   /-- `zeros(..)`, `ones(..)`, `fill(x, ..)` with the variable's dimensions: a `DM` -/
   | dm (x : Rat)
+  /-- `identity(n)`, `diagonal({..})` on an array variable: a (sparse) `DM` matrix with these elements,
+      structural zeros included (rows as in `arr`) -/
+  | dmat (rows : List (List Rat))
 deriving Repr, Inhabited
 
 /-- what ends up on the `Variable` object -/
@@ -263,6 +266,8 @@ inductive Stored where
   /-- (nested) Python list of scalar `MX`; elements in column-major order -/
   | listE (es : List E)
   | dm (n : Nat) (x : Rat)
+  /-- a `DM` matrix; elements in column-major order -/
+  | dmat (xs : List Rat)
 deriving Repr, Inhabited
 
 structure Var where
@@ -311,6 +316,7 @@ def store (v : Var) (a : AttrName) : Stored :=
       else .dm 1 q
     | .mx => .mx e
   | some (.arrE rows) => .listE (colMajor rows)
+  | some (.dmat rows) => .dmat (colMajor rows)
   | some (.dm x) =>
     if v.dims.isEmpty then .py ((pyCast v.ptype (.float (.fin x))).getD (.float (.fin x)))
     else .dm v.numel x
@@ -336,6 +342,7 @@ def Stored.tag (a : AttrName) : Stored → String
   | .listE _ => "list"
   | .mx _ => "MX"
   | .dm _ _ => "DM"
+  | .dmat _ => "DM"
 
 /-- one entry of a metadata column before evaluation: a constant or a scalar expression -/
 inductive Entry where
@@ -351,6 +358,7 @@ def Stored.entries (a : AttrName) : Stored → List Entry
   | .mx e => (List.range e.numel).map fun k => .ex (e.elem k)
   | .listE es => es.map fun e => .ex (e.elem 0)
   | .dm n x => List.replicate n (.const (.fin x))
+  | .dmat xs => xs.map fun x => .const (.fin x)
 
 /-- `value if value.numel() != 1 else repmat(value, *symbol.size())` -/
 def bcast (n : Nat) (xs : List Entry) : List Entry :=
